@@ -389,6 +389,16 @@ func (t *TOTP) PostValidate(w http.ResponseWriter, r *http.Request) error {
 		return t.Authboss.Core.Responder.Respond(w, r, http.StatusOK, PageTOTPValidate, data)
 	}
 
+	// The second factor completes a login: give the modules that guard logins
+	// (lock, confirm) the same chance to stop it that the first step gave them,
+	// the account may have been locked or un-confirmed in between.
+	r = r.WithContext(context.WithValue(r.Context(), authboss.CTXKeyUser, user))
+	if handled, err := t.Authboss.Events.FireBefore(authboss.EventAuth, w, r); err != nil {
+		return err
+	} else if handled {
+		return nil
+	}
+
 	// In the case where we care about re-using codes, validate will have set
 	// this and we need to preserve it. Normally there's no database hit
 	// required because we are only reading the secret and validating.
